@@ -1,11 +1,11 @@
 SPECIFICATION Spec
 CONSTANTS
- Threads = {1,2,3}
+ Threads = {1,2}
  MaxOps = 2
  W = 16
  HT <- HTGauge
  Alphabet <- AlphaGaugeCas
  FineCas = TRUE
  Retry = TRUE
-INVARIANTS TypeOK IncOnlySum AbsMonotone AbsFloor NoLostUpdate SetExact ExactlyN NoValueDisables
+INVARIANTS TypeOK IncOnlySum AbsMonotone AbsFloor NoLostUpdate SetExact ExactlyN 
 CHECK_DEADLOCK FALSE
